@@ -38,7 +38,7 @@ def gen_cases(ctx):
         {"kind": "timedelta", "vals": [None, 3, None, 1], "op": "sort", "arg": -1},
         {"kind": "objint", "vals": [None, None], "op": "unique", "arg": None},
         {"kind": "int", "vals": [3, 1, 2, 3, 1, 2, 3, 1, 2, 3, 1, 2, 3, 1, 2, 3, 1, 2, 3, 1, 2, 3, 1, 2], "op": "rank", "arg": "ordinal"},
-        # fixed c7d6d59: trailing null characters dropped by the fixed-width fast path
+        # known finding (trailing-nul): trailing null characters are dropped by the fixed-width fast path
         {"kind": "str", "vals": ["a\x00", "a", "a\x00", "b"], "op": "sort", "arg": 1},
         {"kind": "str", "vals": ["a\x00", "a", "a\x00", "b"], "op": "unique", "arg": None},
         {"kind": "str", "vals": ["a\x00", "a", "a\x00", "b"], "op": "rank", "arg": "min"},
